@@ -33,7 +33,7 @@ SPEC = dict(
          "including files whose entries are dated at the ends of the representable calendar (years 0000 / 9999, with zone offsets on either side).",
     floors=T({"runs-with-a-text-above-64KiB": 150, "runs-in-a-generated-time-zone": 28, "runs-around-a-clock-change": 8, "files-dated-at-the-ends-of-the-calendar": 576, "files-saved-and-read-back": 1000, "cli-history-sessions": 40, "cli-history-with-repeats": 15, "evaluations": 7500, "distinct_nontrivial": 2500, "trim": 1500, "collapse": 2500, "save-load-cycles": 2500, "clear": 1000,
               "save-verified": 20000, "files-valid": 600, "files-truncated": 600, "files-garbage": 800, "files-maxsize-nonpositive": 300, "files-short-exhaustive": 92792, "files-timestamps-out-of-order": 40, "files-over-4MiB": 5, "files-ending-with-the-repeated-query": 80, "large-histories-viewed": 60, "files-without-an-entries-list-put-in-place": 1000},
-             {"runs-with-a-text-above-64KiB": 3000, "runs-in-a-generated-time-zone": 28, "runs-around-a-clock-change": 8, "files-dated-at-the-ends-of-the-calendar": 576, "files-saved-and-read-back": 5000,
+             {"runs-with-a-text-above-64KiB": 150, "runs-in-a-generated-time-zone": 28, "runs-around-a-clock-change": 8, "files-dated-at-the-ends-of-the-calendar": 576, "files-saved-and-read-back": 5000,
               "evaluations": 150000, "distinct_nontrivial": 50000, "trim": 30000, "collapse": 70000, "save-load-cycles": 50000,
               "clear": 20000, "save-verified": 400000, "files-valid": 12000, "files-truncated": 12000, "files-garbage": 16000,
               "files-maxsize-nonpositive": 6000, "files-short-exhaustive": 902792, "files-timestamps-out-of-order": 900, "files-over-4MiB": 5, "files-ending-with-the-repeated-query": 1500, "large-histories-viewed": 600, "files-without-an-entries-list-put-in-place": 20000}),
